@@ -301,10 +301,8 @@ func runC10(c *Ctx) {
 			okH := false
 
 			for _, hc := range hcalls {
-				for _, r := range *hc.Value().Referrers() {
-					if _, isRet := r.(*ssa.Return); isRet {
-						okH = true
-					}
+				if FlowsToReturn(hc.Value()) {
+					okH = true
 				}
 
 				okH = okH && Glob("call:(pkg/state/impl/store.Marshaler).UnmarshalResource(*)#0", p.ArgDesc(hc, 1))
@@ -321,7 +319,6 @@ func runC10(c *Ctx) {
 
 func loadGate(c *Ctx, rule string) {
 	p := c.P
-
 
 	stT := "(*" + pkgInmem + ".State)"
 
@@ -361,10 +358,24 @@ func loadGate(c *Ctx, rule string) {
 			CutSpec{Edges: FactEdge("false(call:(*sync/atomic.Bool).Load(param#0.loaded))")}, 1)
 
 		// the load handler injects what it was given into the collection of the given type
+		// (the handler is what is passed to store.Load: a function literal, or a method value of the state)
 		h := ClosureWith(ls, p.CallTo(gInject))
+		wantColl, wantRes := "call:"+stT+".getCollection(free:param#0,param#0)", "param#1"
+
+		if h == nil {
+			for _, lc := range Find(ls, load) {
+				args := CallArgs(lc.(ssa.CallInstruction))
+				if mc, ok := stripChangeType(args[len(args)-1]).(*ssa.MakeClosure); ok && len(mc.Bindings) == 1 && p.Desc(mc.Bindings[0]) == "param#0" {
+					if m := p.funcValue(mc.Fn, 0); m != nil && m != mc.Fn {
+						h, wantColl, wantRes = m, "call:"+stT+".getCollection(param#0,param#1)", "param#2"
+					}
+				}
+			}
+		}
+
 		if c.NeedFunc(rule, h, "load handler closure") {
 			inj := p.Calls(h, gInject)
-			ok := len(inj) == 1 && Glob("call:"+stT+".getCollection(free:param#0,param#0)", p.ArgDesc(inj[0], 0)) && p.ArgDesc(inj[0], 1) == "param#1"
+			ok := len(inj) == 1 && Glob(wantColl, p.ArgDesc(inj[0], 0)) && p.ArgDesc(inj[0], 1) == wantRes
 			c.Check(ok, rule, FuncName(h)+" :: inject(resource) into the collection of its type", fpos(h), "yes", "handler injects into another collection / another object")
 		}
 	}
